@@ -160,6 +160,7 @@ func (c *snapCase) runImpl() *snapResult {
 	}
 	ch := make(chan out, 1)
 	start := time.Now()
+	mark(c.op())
 	go func() {
 		var o out
 		defer func() {
@@ -174,6 +175,7 @@ func (c *snapCase) runImpl() *snapResult {
 	var o out
 	select {
 	case o = <-ch:
+		unmark()
 	case <-time.After(hangLimit):
 		return &snapResult{hang: true, elapsed: time.Since(start)}
 	}
